@@ -24,6 +24,14 @@
 //	    sites     . | hex,hex,…   one route per site (host matcher, exact name) then a catch-all route
 //	    reqs      R;R;…   R = <tls 0|1>/<sniHex>/<hostHex>
 //	  answer: strict=<0|1> r r …   r = in:<site index> | in:* | 421 | s<status>
+//
+//	e2e <hs> <sniHex> <hostHex>
+//	    a REAL crypto/tls handshake (client without certificate, over an in-memory pipe) against the
+//	    TLSConfig of a provisioned server with policies [sni secret.test + client auth require],
+//	    [catch-all, fallback_sni public.test], sites secret.test, public.test and strict_sni_host
+//	    left to the auto-enable rule; then one request with that connection's ConnectionState.
+//	    hs = f (handshake failed) | p<i> (completed under policy i) as observed when the line was written.
+//	  answer: hs=f | hs=p<i> r      r as above
 package c19
 
 import (
@@ -35,6 +43,7 @@ import (
 	"crypto/x509/pkix"
 	"encoding/base64"
 	"encoding/json"
+	"encoding/pem"
 	"fmt"
 	"math/big"
 	"net"
@@ -205,6 +214,30 @@ type prop struct {
 	live     bool
 	matchers [nOpaque]caddytls.ConnectionMatcher
 	caB64    string
+	e2eSrv   *caddyhttp.Server
+	e2eTLS   *tls.Config
+}
+
+var e2eSites = []string{"secret.test", "public.test"}
+
+func selfSigned(names ...string) (certPEM, keyPEM string, err error) {
+	key, err := ecdsa.GenerateKey(elliptic.P256(), rand.Reader)
+	if err != nil {
+		return "", "", err
+	}
+	tmpl := &x509.Certificate{SerialNumber: big.NewInt(2), Subject: pkix.Name{CommonName: names[0]}, DNSNames: names,
+		NotBefore: time.Now().Add(-time.Hour), NotAfter: time.Now().Add(48 * time.Hour), KeyUsage: x509.KeyUsageDigitalSignature,
+		ExtKeyUsage: []x509.ExtKeyUsage{x509.ExtKeyUsageServerAuth}}
+	der, err := x509.CreateCertificate(rand.Reader, tmpl, tmpl, &key.PublicKey, key)
+	if err != nil {
+		return "", "", err
+	}
+	kb, err := x509.MarshalECPrivateKey(key)
+	if err != nil {
+		return "", "", err
+	}
+	return string(pem.EncodeToMemory(&pem.Block{Type: "CERTIFICATE", Bytes: der})),
+		string(pem.EncodeToMemory(&pem.Block{Type: "EC PRIVATE KEY", Bytes: kb})), nil
 }
 
 func New() core.Prop { return &prop{} }
@@ -226,9 +259,19 @@ func (p *prop) setup() error {
 		os.Setenv("XDG_DATA_HOME", d)
 		os.Setenv("XDG_CONFIG_HOME", d)
 		os.Setenv("HOME", d)
+		c1, k1, err := selfSigned("secret.test")
+		if err != nil {
+			return err
+		}
+		c2, k2, err := selfSigned("public.test")
+		if err != nil {
+			return err
+		}
+		tlsRaw, _ := json.Marshal(map[string]any{"certificates": map[string]any{"load_pem": []any{
+			map[string]any{"certificate": c1, "key": k1}, map[string]any{"certificate": c2, "key": k2}}}})
 		cfg := &caddy.Config{Logging: &caddy.Logging{Logs: map[string]*caddy.CustomLog{
 			"default": {BaseLog: caddy.BaseLog{WriterRaw: json.RawMessage(`{"output":"discard"}`)}},
-		}}}
+		}}, AppsRaw: caddy.ModuleMap{"tls": tlsRaw}}
 		ctx, err := caddy.ProvisionContext(cfg)
 		if err != nil {
 			return err
@@ -256,7 +299,10 @@ func (p *prop) setup() error {
 		}
 		p.caB64 = base64.StdEncoding.EncodeToString(der)
 		p.live, err = p.probeLive()
-		return err
+		if err != nil {
+			return err
+		}
+		return p.setupE2E()
 	}()
 	return p.initErr
 }
@@ -535,6 +581,8 @@ func (p *prop) Run(line string) core.Outcome {
 		o = p.runPol(f)
 	case len(f) == 5 && f[0] == "enf":
 		o = p.runEnf(f)
+	case len(f) == 4 && f[0] == "e2e":
+		o = p.runE2E(f)
 	default:
 		o = core.Outcome{Impl: "bad-op"}
 	}
@@ -871,16 +919,20 @@ func (p *prop) runEnf(f []string) core.Outcome {
 		// ---- oracle: under (expected) strict checking a TLS request that reaches a handler was
 		// routed by a host that IS the connection's SNI (ASCII case-insensitively)
 		if wantStrict && rq.tls && strings.HasPrefix(res, "in:") {
-			bracketed := strings.HasPrefix(rq.host, "[") || strings.HasSuffix(rq.host, "]")
-			if site != "*" {
+			if strings.ContainsAny(rq.sni, "[]") {
+				// An SNI with a bracket cannot belong to an established connection on this tree
+				// (certmagic's GetCertificate rejects it; the e2e cases check that with real
+				// handshakes), so what happens to it is outside the property. The latent mismatch
+				// (enforcementHandler compares the raw Host, MatchHost strips one bracket) is counted.
+				if site != "*" {
+					if k, _ := strconv.Atoi(site); k < len(sites) && !foldEq(sites[k], rq.sni) {
+						tag("latent:bracketed-sni-routed-to-unbracketed-site")
+					}
+				}
+			} else if site != "*" {
 				k, _ := strconv.Atoi(site)
 				if k < len(sites) && !foldEq(sites[k], rq.sni) {
-					class := "strict-sni-host-bypass"
-					// narrow known class: Host is bracketed without a (valid) port AND the SNI is that raw Host string
-					if _, _, e := net.SplitHostPort(rq.host); e != nil && bracketed && foldEq(rq.sni, rq.host) {
-						class = "strict-sni-host-bypass:bracketed-host-without-port"
-					}
-					fail(class, fmt.Sprintf("strict SNI-Host in effect, connection SNI %q, Host %q: request was routed to the handler of site %q", rq.sni, rq.host, sites[k]))
+					fail("strict-sni-host-bypass", fmt.Sprintf("strict SNI-Host in effect, connection SNI %q, Host %q: request was routed to the handler of site %q", rq.sni, rq.host, sites[k]))
 				}
 			} else if m := wellFormedHost.FindStringSubmatch(rq.host); m != nil && !foldEq(m[1], rq.sni) {
 				fail("strict-sni-host-mismatch-reaches-handler", fmt.Sprintf("strict SNI-Host in effect, connection SNI %q, Host %q names %q: request reached the catch-all handler", rq.sni, rq.host, m[1]))
@@ -888,5 +940,160 @@ func (p *prop) runEnf(f []string) core.Outcome {
 		}
 	}
 	o.Impl = strings.Join(out, " ")
+	return o
+}
+
+// ---------------------------------------------------------------- end to end (real handshake)
+
+func (p *prop) setupE2E() error {
+	pols := []any{
+		map[string]any{"alpn": []string{"c19-0"}, "match": map[string]any{"sni": []string{"secret.test"}},
+			"client_authentication": map[string]any{"mode": "require"}},
+		map[string]any{"alpn": []string{"c19-1"}, "fallback_sni": "public.test"},
+	}
+	var routes []any
+	for i, s := range e2eSites {
+		routes = append(routes, map[string]any{
+			"match":    []any{map[string]any{"host": []string{s}}},
+			"handle":   []any{map[string]any{"handler": "verif_c19_probe", "site": strconv.Itoa(i)}},
+			"terminal": true,
+		})
+	}
+	routes = append(routes, map[string]any{"handle": []any{map[string]any{"handler": "verif_c19_probe", "site": "*"}}})
+	raw, _ := json.Marshal(map[string]any{"servers": map[string]any{"s": map[string]any{
+		"listen": []string{":443"}, "automatic_https": map[string]any{"disable": true},
+		"routes": routes, "tls_connection_policies": pols}}})
+	v, err := p.ctx.LoadModuleByID("http", raw)
+	if err != nil {
+		return err
+	}
+	p.e2eSrv = v.(*caddyhttp.App).Servers["s"]
+	p.e2eTLS = p.e2eSrv.TLSConnPolicies.TLSConfig(p.ctx)
+	return nil
+}
+
+// handshake performs a real TLS handshake (client sends sni, offers both markers, has no certificate).
+func (p *prop) handshake(sni string) (hs string, st tls.ConnectionState) {
+	c1, c2 := net.Pipe()
+	dl := time.Now().Add(3 * time.Second)
+	c1.SetDeadline(dl)
+	c2.SetDeadline(dl)
+	cli := tls.Client(c1, &tls.Config{ServerName: sni, InsecureSkipVerify: true, NextProtos: []string{"c19-0", "c19-1"}})
+	srv := tls.Server(c2, p.e2eTLS)
+	done := make(chan struct{})
+	go func() {
+		defer close(done)
+		if cli.Handshake() == nil {
+			// TLS 1.3: the client is done before the server has judged it; wait for its verdict
+			buf := make([]byte, 1)
+			cli.Read(buf)
+		}
+	}()
+	err := srv.Handshake()
+	if err == nil {
+		st = srv.ConnectionState()
+	}
+	c2.Close()
+	c1.Close()
+	<-done
+	if err != nil {
+		return "f", st
+	}
+	if strings.HasPrefix(st.NegotiatedProtocol, "c19-") {
+		return "p" + strings.TrimPrefix(st.NegotiatedProtocol, "c19-"), st
+	}
+	return "p?", st
+}
+
+// e2eSNIOK is the (deliberately simple, mirrored in the Lean driver) rule for SNIs of e2e cases:
+// non-empty, no trailing dot, no '%', and a letter g-z/G-Z — which implies sniSendable.
+func e2eSNIOK(s string) bool {
+	if s == "" || strings.HasSuffix(s, ".") || strings.Contains(s, "%") {
+		return false
+	}
+	for i := 0; i < len(s); i++ {
+		if c := s[i] | 0x20; c >= 'g' && c <= 'z' && (s[i] >= 'A') {
+			return sniSendable(s)
+		}
+	}
+	return false
+}
+
+// sniSendable: Go's client puts the name on the wire unchanged iff it is not an IP literal and
+// has no trailing dot (crypto/tls hostnameInSNI).
+func sniSendable(s string) bool {
+	if s == "" || strings.HasSuffix(s, ".") {
+		return false
+	}
+	h := s
+	if len(h) > 0 && h[0] == '[' && h[len(h)-1] == ']' {
+		h = h[1 : len(h)-1]
+	}
+	if i := strings.LastIndex(h, "%"); i > 0 {
+		h = h[:i]
+	}
+	return net.ParseIP(h) == nil
+}
+
+func (p *prop) runE2E(f []string) core.Outcome {
+	bad := core.Outcome{Impl: "bad-op"}
+	if f[1] != "f" && f[1] != "p0" && f[1] != "p1" {
+		return bad
+	}
+	sni, e1 := core.UnHex(f[2])
+	host, e2 := core.UnHex(f[3])
+	if e1 != nil || e2 != nil || f[2] == "" || f[3] == "" || !asciiClean(sni, false) || !asciiClean(host, false) || !e2eSNIOK(sni) {
+		return bad
+	}
+	var o core.Outcome
+	tag := func(t string) { o.Tags = append(o.Tags, t) }
+	fail := func(class, what string) {
+		o.Failures = append(o.Failures, core.Failure{Class: class, What: what})
+	}
+	tag("e2e")
+	hs, st := p.handshake(sni)
+	tag("e2e:hs=" + hs)
+	if hs != f[1] {
+		tag("e2e:handshake-result-differs-from-line")
+	}
+	if hs == "f" {
+		o.Impl = "hs=f"
+		return o
+	}
+	// ---- oracle on the handshake itself
+	if st.ServerName != sni {
+		fail("connection-state-sni-differs", fmt.Sprintf("client sent SNI %q, server ConnectionState.ServerName is %q", sni, st.ServerName))
+	}
+	if strings.ContainsAny(sni, "[]") {
+		fail("bracketed-sni-completes-handshake", fmt.Sprintf("a handshake with SNI %q completed (under policy %s); strict SNI-Host does not bind bracketed names", sni, hs))
+	}
+	if foldEq(sni, "secret.test") && hs != "p0" {
+		fail("later-policy-chosen-over-first-match", fmt.Sprintf("real handshake with SNI %q completed under policy %s; first match is the client-auth policy 0", sni, hs))
+	}
+	if hs == "p0" {
+		fail("client-auth-handshake-completes-without-certificate", fmt.Sprintf("handshake with SNI %q completed under the client-auth policy although the client has no certificate", sni))
+	}
+	r := httptest.NewRequest("GET", "https://placeholder.invalid/", nil)
+	r.Host = host
+	r.TLS = &st
+	rec := httptest.NewRecorder()
+	p.e2eSrv.ServeHTTP(rec, r)
+	site := rec.Header().Get("X-C19-Site")
+	var res string
+	switch {
+	case rec.Code == 200 && site != "":
+		res = "in:" + site
+	case rec.Code == http.StatusMisdirectedRequest && site == "":
+		res = "421"
+	default:
+		res = "s" + strconv.Itoa(rec.Code)
+	}
+	tag("e2e:" + strings.SplitN(res, ":", 2)[0])
+	// ---- the property, end to end: the client has no certificate, so the handler of the
+	// client-auth site must never be entered
+	if res == "in:0" {
+		fail("client-auth-site-reached-without-certificate", fmt.Sprintf("connection SNI %q (policy %s, no client certificate), Host %q: request reached the handler of %s", sni, hs, host, e2eSites[0]))
+	}
+	o.Impl = "hs=" + hs + " " + res
 	return o
 }
